@@ -60,7 +60,9 @@ type PLine struct {
 	Idx      []PIdx   `json:"idx"`
 	Hash     []string `json:"hash"`
 	Name     []string `json:"name"`
+	NameL    []string `json:"namel"` // task names under a Job name of the maximum accepted length
 	Vars     []PVars  `json:"vars"`
+	IVars    []PVars  `json:"ivars"` // the same variables as rendered in an init container
 	Slots    int      `json:"slots"` // number of distinct per-index status slots GetParallelStatus reports when every index has one task
 	L        Label    `json:"l"`
 }
@@ -104,7 +106,7 @@ func projIdx(x execution.ParallelIndex) PIdx {
 
 func evalParallel(v *validation.Validator, c PCase) PLine {
 	spec := c.spec()
-	line := PLine{Ev: "Case", C: c, Idx: []PIdx{}, Hash: []string{}, Name: []string{}, Vars: []PVars{}, Stable: true}
+	line := PLine{Ev: "Case", C: c, Idx: []PIdx{}, Hash: []string{}, Name: []string{}, NameL: []string{}, Vars: []PVars{}, IVars: []PVars{}, Stable: true}
 	line.Accepted = len(v.ValidateParallelismSpec(spec, field.NewPath("spec", "template", "parallelism"))) == 0
 	indexes := parallel.GenerateIndexes(spec)
 	for r := 0; r < 12; r++ {
@@ -119,7 +121,11 @@ func evalParallel(v *validation.Validator, c PCase) PLine {
 	}
 	rj := &execution.Job{ObjectMeta: metav1.ObjectMeta{Name: "job", Namespace: "default", UID: "job-uid"},
 		Spec: execution.JobSpec{Template: &execution.JobTemplate{Parallelism: spec}}}
-	tmpl := &corev1.PodTemplateSpec{Spec: corev1.PodSpec{Containers: []corev1.Container{{Name: "c", Image: "img", Args: args}}}}
+	// all indexes are rendered from this one template object, as the controller renders all tasks of a Job from one cached Job
+	tmpl := &corev1.PodTemplateSpec{Spec: corev1.PodSpec{Containers: []corev1.Container{{Name: "c", Image: "img", Args: append([]string{}, args...)}},
+		InitContainers: []corev1.Container{{Name: "i", Image: "img", Args: append([]string{}, args...)}}}}
+	longName := "a-job-name-of-the-maximum-length-that-admission-accepts-0123" // 60 characters
+	rjLong := &execution.Job{ObjectMeta: metav1.ObjectMeta{Name: longName, Namespace: "default", UID: "job-uid"}}
 	var refs []execution.TaskRef
 	for _, ix := range indexes {
 		line.Idx = append(line.Idx, projIdx(ix))
@@ -133,7 +139,12 @@ func evalParallel(v *validation.Validator, c PCase) PLine {
 		if err != nil {
 			n = "ERR:" + err.Error()
 		}
-		pv := PVars{M: [][]string{}}
+		if nl, err := jobutil.GenerateTaskName(rjLong.Name, ti); err == nil {
+			line.NameL = append(line.NameL, nl)
+		} else {
+			line.NameL = append(line.NameL, "ERR:"+err.Error())
+		}
+		pv, iv := PVars{M: [][]string{}}, PVars{M: [][]string{}}
 		pod, err := podtaskexecutor.NewPod(rj, tmpl, ti)
 		if err != nil {
 			n = "ERR:" + err.Error()
@@ -141,20 +152,27 @@ func evalParallel(v *validation.Validator, c PCase) PLine {
 			if pod.Name != n {
 				n = "MISMATCH:" + pod.Name + "/" + n
 			}
-			for _, a := range pod.Spec.Containers[0].Args {
-				kv := strings.SplitN(a, "=", 2)
-				switch {
-				case kv[0] == "num":
-					pv.Num = kv[1]
-				case kv[0] == "key":
-					pv.Key = kv[1]
-				case strings.HasPrefix(kv[0], "m."):
-					pv.M = append(pv.M, []string{kv[0][2:], kv[1]})
+			parse := func(args []string, v *PVars) {
+				for _, a := range args {
+					kv := strings.SplitN(a, "=", 2)
+					switch {
+					case kv[0] == "num":
+						v.Num = kv[1]
+					case kv[0] == "key":
+						v.Key = kv[1]
+					case strings.HasPrefix(kv[0], "m."):
+						v.M = append(v.M, []string{kv[0][2:], kv[1]})
+					}
 				}
+			}
+			parse(pod.Spec.Containers[0].Args, &pv)
+			if len(pod.Spec.InitContainers) == 1 {
+				parse(pod.Spec.InitContainers[0].Args, &iv)
 			}
 		}
 		line.Name = append(line.Name, n)
 		line.Vars = append(line.Vars, pv)
+		line.IVars = append(line.IVars, iv)
 		ixc := ix
 		refs = append(refs, execution.TaskRef{Name: n, RetryIndex: 0, ParallelIndex: &ixc})
 	}
